@@ -730,6 +730,20 @@ pub fn correlate_px(px: &mut [[f32; 3]], seed: u64, feedback: Option<&dyn Fn([f3
                     px[i] = q;
                 }
             }
+            11 => {
+                // coordinated bit flips: the previous pixel with bit s+j of one component and bit j of another flipped
+                // (keys that pack the components' bit patterns with shifts and xor / add collide on exactly such pairs)
+                let a = e.below(3) as usize;
+                let b = (a + 1 + e.below(2) as usize) % 3;
+                let sft = [8u64, 10, 12, 16, 20, 24][e.below(6) as usize];
+                let j = e.below(32 - sft);
+                let mut q = prev;
+                q[a] = f32::from_bits(q[a].to_bits() ^ (1u32 << (sft + j)));
+                q[b] = f32::from_bits(q[b].to_bits() ^ (1u32 << j));
+                if q.iter().all(|x| x.is_finite()) && in_domain(q) {
+                    px[i] = q;
+                }
+            }
             8 => {
                 // alternation A B A: the pixel before the previous one comes back
                 if i >= 2 {
